@@ -340,7 +340,13 @@ func init() {
 			}
 		}
 		sc := o.One(e.Calls(fn, "(*am/silence.Silences).setSilence"), "set", "expire must store through setSilence", fn)
-		o.Check(e.Arg(sc, 1) == "(*am/silence.Silences).toMeshSilence(recv, "+clone+")", "set-arg", "expire must store the modified clone", sc)
+		argOK := e.Arg(sc, 1) == "(*am/silence.Silences).toMeshSilence(recv, "+clone+")"
+		if tm, ok := sc.Common().Args[1].(*ssa.Call); ok && !argOK && calleeName(&tm.Call) == "(*am/silence.Silences).toMeshSilence" {
+			// the clone joined with the nothing a helper returns for an expired silence: what reaches the store
+			vs := e.ValStrs(fn, e.ValsAt((&Walk{Fn: fn}).FromEntry(), tm, tm.Call.Args[1]))
+			argOK = len(vs) == 1 && vs[0] == clone
+		}
+		o.Check(argOK, "set-arg", "expire must store the modified clone", sc)
 		// Expire holds the lock and delegates
 		ex := o.Fn("(*am/silence.Silences).Expire")
 		c := o.One(e.Calls(ex, "(*am/silence.Silences).expire"), "Expire-delegate", "Expire must delegate to expire", ex)
@@ -365,7 +371,8 @@ func init() {
 				}
 			}
 		}
-		o.Require(len(delSt) == 1 && len(delMi) == 1, "deletes", "GC must delete from the state and from the matcher index at one site each", nil)
+		// (one removal site, or one per reason for removing: each removes from both)
+		o.Require(len(delSt) >= 1 && len(delSt) == len(delMi), "deletes", "GC must delete from the state and from the matcher index together", nil)
 		var stLk *ssa.Lookup
 		for _, in := range AllInstrs(fn) {
 			if lk, ok := in.(*ssa.Lookup); ok && lk.CommaOk && e.X(fn, lk.X) == "recv.st" {
@@ -393,7 +400,15 @@ func init() {
 			}
 		}
 		// st and mi deleted together
-		o.Check(delSt[0].Block() == delMi[0].Block(), "gc-together", "the state and the matcher index must be pruned together", delMi[0])
+		for _, ds := range delSt {
+			paired := false
+			for _, dm := range delMi {
+				if ds.Block() == dm.Block() && e.X(fn, ds.(*ssa.Call).Call.Args[1]) == e.X(fn, dm.(*ssa.Call).Call.Args[1]) {
+					paired = true
+				}
+			}
+			o.Check(paired, "gc-together", "the state and the matcher index must be pruned together", ds)
+		}
 		// the version index keeps exactly the surviving entries: the append to the new index is unreachable on the delete path
 		vis := e.StoresTo(fn, "recv.vi")
 		o.Require(len(vis) == 1, "gc-vi", "GC must publish the rebuilt version index once", nil)
@@ -401,8 +416,10 @@ func init() {
 		o.Require(len(parts) >= 1, "gc-vi-parts", "the rebuilt version index is not built by appending survivors", vis[0])
 		for _, p := range parts {
 			o.Site(p.Call, "survivor appended to version index")
-			after := (&Walk{Fn: fn, Barrier: func(in ssa.Instruction) bool { return in.Block() == l.Header && in == l.Header.Instrs[0] }}).After(delSt[0])
-			o.Check(!after.Has(p.Call), "gc-vi-keeps-deleted", "an id removed from the state can stay in the version index", p.Call)
+			for _, ds := range delSt {
+				after := (&Walk{Fn: fn, Barrier: func(in ssa.Instruction) bool { return in.Block() == l.Header && in == l.Header.Instrs[0] }}).After(ds)
+				o.Check(!after.Has(p.Call), "gc-vi-keeps-deleted", "an id removed from the state can stay in the version index", p.Call)
+			}
 			o.Guarded(p.Call, "gc-vi-guard", "keeping an id in the version index", live)
 		}
 		// live ⇒ kept in vi
